@@ -133,7 +133,10 @@ impl FieldElement for BaseElement {
     fn double(self) -> Self {
         let ret = (self.0 as u128) << 1;
         let (result, over) = (ret as u64, (ret >> 64) as u64);
-        Self(result.wrapping_sub(M * over))
+        // subtract the modulus when the doubled value does not fit into 64 bits or when its
+        // low word alone is not smaller than the modulus, so that the result stays in [0, M)
+        let reduce = over | ((result >= M) as u64);
+        Self(result.wrapping_sub(M * reduce))
     }
 
     #[inline]
